@@ -108,6 +108,14 @@ theorem wrong_winner_empty (asn : Nat → Nat → Nat → Nat → D) (C : Contes
   obtain ⟨a, ha, hc⟩ := h2 π hπ
   exact valid_not_contradicted_fam asn C cvrs hwf π (hπ.1.nodup_iff.2 hC) hv a (h1 a ha) hc
 
+/-- the generator raises none of the exceptions the model represents: the frontier is never empty at
+`max(...)` / `frontier.nodes[0]`, every dive finds a remaining candidate, and at the end every frontier node
+carries an assertion; only termination (fuel) is left open -/
+theorem raire_no_exception (asn : Nat → Nat → Nat → Nat → D) (C : Contest α) (cvrs : List (Option (Ballot α)))
+    (winner : α) (hC : C.candidates.Nodup) (hn : 2 ≤ C.candidates.length) (fuel : Nat) (e : Err) :
+    computeRaireAssertions asn C cvrs winner fuel ≠ Res.err e :=
+  compute_no_err asn C cvrs winner hC hn fuel e
+
 /-- the subsumption tests are sound (each of the four NEB branches and the NEN suffix test): an
 assertion that subsumes `o` contradicts every order ending in a tail `o` was recorded to rule out -/
 theorem subsumes_sound (cands : List α) (f o : Assertion α D) (hg : Good cands f)
